@@ -292,6 +292,55 @@ Theorem C19_sk_string_wrong_length_rejected : forall order_ok pubmul ed_sk c s, 
 Proof. exact sk_from_string_wrong_length. Qed.
 Print Assumptions C19_sk_string_wrong_length_rejected.
 
+(* the secret scalar must lie in 1 .. n-1: a raw string, a SEC1 file and a PKCS#8 file whose key octets
+   encode 0 or a value >= n (n itself, n+1, 2^bits-1, ...) are rejected with MalformedPointError, for every
+   curve object; the range test is part of the model (sk_from_secret_exponent), not of an oracle *)
+Theorem C19_sk_range_rejected :
+  forall sqrt_mod order_ok pubmul ed_sk known c ks k,
+  blen ks = baselen c -> string_to_number ks = Ok k -> k = 0 \/ c_n c <= k ->
+  sk_from_string order_ok pubmul ed_sk (CW c) ks = Err EMalformedPoint /\
+  forall cd evk fmt ven vex,
+    curve_from_der sqrt_mod known cd ven vex = Ok (CW c) ->
+    blen ks + blen cd + blen evk + 2000 < 256 ^ 127 ->
+    sk_from_der sqrt_mod order_ok pubmul ed_sk known
+      (match fmt with
+       | Ssleay => tlv x30 (ecpriv_body ks (Some cd) evk)
+       | Pkcs8 => tlv x30 (INT1 ++ tlv x30 (PKB ++ cd) ++ tlv x04 (tlv x30 (ecpriv_body ks None evk)))
+       end) ven vex = Err EMalformedPoint.
+Proof.
+  intros sq ok pm eds known c ks k Hb Hn Hk. split.
+  - exact (sk_from_string_range ok pm eds c ks k Hb Hn Hk).
+  - intros cd evk fmt ven vex Hc HS. exact (sk_der_range_rejected sq ok pm eds known c ks cd evk k fmt ven vex Hb Hn Hk Hc HS).
+Qed.
+Print Assumptions C19_sk_range_rejected.
+
+(* these shapes are exactly what SigningKey.to_der produces *)
+Theorem C19_sk_der_shape : forall c k px py pe fmt ce d, sk_to_der c k px py pe fmt ce = Ok d ->
+  exists evk ks cd, sk_to_string c k = Ok ks /\ curve_to_der c ce Uncompressed = Ok cd /\
+    d = match fmt with
+        | Ssleay => tlv x30 (ecpriv_body ks (Some cd) evk)
+        | Pkcs8 => tlv x30 (INT1 ++ tlv x30 (PKB ++ cd) ++ tlv x04 (tlv x30 (ecpriv_body ks None evk)))
+        end.
+Proof.
+  intros c k px py pe fmt ce d H. destruct (sk_to_der_inv _ _ _ _ _ _ _ _ H) as [_ [evk [ks [cd [_ [A [B C]]]]]]].
+  exists evk, ks, cd. auto.
+Qed.
+Print Assumptions C19_sk_der_shape.
+
+(* P-256: the scalars n and 0 as raw strings, and the P-256 SEC1 file of scalar n *)
+Example C19_sk_range_example :
+  let ok := fun (_ : curve) (_ _ : N) => true in
+  let pm := fun (_ : curve) (_ : N) => @Err (N * N) EFuel in
+  let eds := fun (w : bool) (e : bytes) => Ok (SkEd w e) in
+  let sq := fun (_ : Z) (_ : N) => @None N in
+  sk_from_string ok pm eds (CW NIST256p) (be 32 (c_n NIST256p)) = Err EMalformedPoint /\
+  sk_from_string ok pm eds (CW NIST256p) (be 32 0) = Err EMalformedPoint /\
+  sk_from_der sq ok pm eds known_curves
+    (tlv x30 (ecpriv_body (be 32 (c_n NIST256p)) (Some (tlv x06 (oid_body 1 2 [840; 10045; 3; 1; 7]))) (x04 :: zeros 64)))
+    true true = Err EMalformedPoint.
+Proof. cbv zeta. repeat split; vm_compute; reflexivity. Qed.
+Print Assumptions C19_sk_range_example.
+
 (* ======== DER keys: the 17 generated curves, named and explicit parameters, SEC1 and PKCS#8 ======== *)
 
 (* curve parameters, named and explicit, decode to the same curve object *)
